@@ -8,7 +8,8 @@ CMDS = 'commands.py'
 
 def done_guard_for(recv: str):
     def pred(e, pol):
-        if isinstance(e, ast.Call) and call_name(e) in ('done', 'cancelled') and isinstance(e.func, ast.Attribute) and \
+        # only `done()` establishes "pending": a future that was COMPLETED is done but not cancelled
+        if isinstance(e, ast.Call) and call_name(e) == 'done' and isinstance(e.func, ast.Attribute) and \
                 unparse(e.func.value) == recv:
             return not pol
         return False
